@@ -312,12 +312,59 @@ func (e *Engine) applyDirective(h *Harness, d string) error {
 		}
 		h.Stubs[target] = fn
 		h.StubNames = append(h.StubNames, target+" = "+repl)
+	case "use":
+		// use <set>...: expands to a named set of stub redirects (harness/common)
+		for _, name := range fields[1:] {
+			set, ok := stubSets[name]
+			if !ok {
+				return fmt.Errorf("unknown stub set %q", name)
+			}
+			for _, line := range set {
+				if err := e.applyDirective(h, "stub "+line); err != nil {
+					return err
+				}
+			}
+		}
 	case "pkg", "dir", "property":
 		// handled by the driver
 	default:
 		return fmt.Errorf("unknown directive %q", d)
 	}
 	return nil
+}
+
+const repoPkg = "github.com/Query-farm/vgi-rpc-go/vgirpc"
+const arrowPkg = "github.com/apache/arrow-go/v18/arrow"
+
+// stubSets are the named environment models of harness/common.
+var stubSets = map[string][]string{
+	// abstract Arrow IPC (harness/common/ipc.go)
+	"ipc": {
+		arrowPkg + "/ipc.NewReader = verifIpcNewReader",
+		"(*" + arrowPkg + "/ipc.Reader).Next = verifReaderNext",
+		"(*" + arrowPkg + "/ipc.Reader).RecordBatch = verifReaderRecordBatch",
+		"(*" + arrowPkg + "/ipc.Reader).Record = verifReaderRecordBatch",
+		"(*" + arrowPkg + "/ipc.Reader).Err = verifReaderErr",
+		"(*" + arrowPkg + "/ipc.Reader).Release = verifReaderRelease",
+		"(*" + arrowPkg + "/ipc.Reader).Retain = verifReaderRetain",
+		"(*" + arrowPkg + "/ipc.Reader).Schema = verifReaderSchema",
+		arrowPkg + "/ipc.NewWriter = verifIpcNewWriter",
+		arrowPkg + "/ipc.WithSchema = verifIpcWithSchema",
+		"(*" + arrowPkg + "/ipc.Writer).Write = verifWriterWrite",
+		"(*" + arrowPkg + "/ipc.Writer).Close = verifWriterClose",
+		arrowPkg + "/array.NewRecordBatchWithMetadata = verifNewRecordBatchWithMetadata",
+		arrowPkg + "/array.NewRecordBatch = verifNewRecordBatch",
+		repoPkg + ".emptyBatch = verifEmptyBatch",
+		repoPkg + ".batchBufferSize = verifBatchBufferSize",
+	},
+	// ideal-cryptography token algebra (harness/common/tokens.go)
+	"tokens": {
+		"(*" + repoPkg + ".HttpServer).sealToken = verifSealToken",
+		"(*" + repoPkg + ".HttpServer).openToken = verifOpenToken",
+		repoPkg + ".sealSessionToken = verifSealSessionToken",
+		repoPkg + ".openSessionToken = verifOpenSessionToken",
+		"crypto/rand.Read = verifRandRead",
+	},
 }
 
 // ---- running a harness ----
